@@ -122,13 +122,13 @@ def gen_inline(rng, W, depth=0):
         elif r < 0.77:
             parts.append('{{' + rng.choice('^_') + gen_inline(rng, W, depth + 1) + '}}')
         elif r < 0.81:
-            parts.append('{{>' + rng.choice(['http://x.y/z', '#sec_1', '']) + ' ' + gen_inline(rng, W, depth + 1) + '}}')
+            parts.append('{{>' + rng.choice(['http://x.y/z', '#sec_1', '', 'http://x.y/a\u00a0b', '#a\u2009b']) + ' ' + gen_inline(rng, W, depth + 1) + '}}')
         elif r < 0.84:
             parts.append('{{*' + gen_inline(rng, W, depth + 1) + '}}')
         elif r < 0.87:
-            parts.append('{{IMG ' + rng.choice(['a.png', 'http://x/y.jpg']) + rng.choice(['', ' ' + W.words(1, 2)]) + '}}')
+            parts.append('{{IMG ' + rng.choice(['a.png', 'http://x/y.jpg', 'coat\u00a0of\u00a0arms.png']) + rng.choice(['', ' ' + W.words(1, 2)]) + '}}')
         elif r < 0.91:
-            parts.append('{{FOOTNOTE ' + rng.choice(['1', '2', '*', 'a', '1', '2', '12"', "'a'", 'a b', '<1>', '&']) + '}}')
+            parts.append('{{FOOTNOTE ' + rng.choice(['1', '2', '*', 'a', '1', '2', '12"', "'a'", 'a b', '<1>', '&', '1.', 'a:', '2.', '\u00b9']) + '}}')
         elif r < 0.96:
             tag = rng.choice(['abbr', 'def', 'em', 'inline', 'term', '-', '+'])
             if rng.random() < 0.15:
@@ -143,7 +143,8 @@ def gen_inline(rng, W, depth=0):
 def gen_heading(rng, W):
     r = rng.random()
     if r < 0.2: return ''
-    if r < 0.45: return ' ' + rng.choice(['1', '2', '(a)', '1.2', 'IV', 'A-1', '2_2', 'nn', '3 bis', '1.'])
+    if r < 0.45: return ' ' + rng.choice(['1', '2', '(a)', '1.2', 'IV', 'A-1', '2_2', 'nn', '3 bis', '1.', '12\u00b9', '\u2461', '\u2474', '\u00bd', '\u0663', '\uff11',
+                                         '(\u00e9)', '(e\u0301)', '\u212a', 'K', '\u00c5', '\u212b', '(A)', '(a)', '\u2160', 'x\u00b2'])
     if r < 0.8: return ' ' + rng.choice(['1', '2', '(b)', '3A']) + ' - ' + gen_inline(rng, W)
     return ' - ' + gen_inline(rng, W)
 
@@ -201,7 +202,7 @@ def gen_block(rng, W, ind, depth, out, allow_hier=True):
     elif r < 0.92:
         out.append(sp + 'LONGTITLE' + rng.choice(['', ' ' + gen_inline(rng, W)]))
     elif r < 0.96:
-        out.append(sp + 'FOOTNOTE ' + rng.choice(['1', '2', '*', 'a', '1', '2', '12"', "'a'", 'a b', '<1>', '&']))
+        out.append(sp + 'FOOTNOTE ' + rng.choice(['1', '2', '*', 'a', '1', '2', '12"', "'a'", 'a b', '<1>', '&', '1.', 'a:', '2.', '\u00b9']))
         gen_blocks(rng, W, ind + 1, depth + 1, out, rng.random() < 0.3, rng.randint(1, 2))
     else:
         # over-indented nested block
@@ -293,7 +294,8 @@ def mutate(rng, text, n=None):
             lines[i] = lines[i][:k] + rng.choice(INLINE_OPEN) + lines[i][k:]
         elif op == 7:
             k = rng.randint(0, len(lines[i]))
-            lines[i] = lines[i][:k] + rng.choice(['\\', '|', '{', '}', '.', '*', '  ', '‏', '́', '\U0001F600', 'é', '"', "'", '<', '>', '&', '%']) + lines[i][k:]
+            lines[i] = lines[i][:k] + rng.choice(['\\', '|', '{', '}', '.', '*', '  ', '‏', '́', '\U0001F600', 'é', '"', "'", '<', '>', '&', '%',
+                                                     '\u00a0', '\u2009', '\u3000', '\u00b9', '\u0301', '\u200b', '\ufeff']) + lines[i][k:]
         elif op == 8: lines.insert(i, '')
         elif op == 9: lines.insert(i, ' ' * rng.randint(0, 6) + rng.choice(ALL_KEYWORDS) + rng.choice(['', ' 1', ' - h', ' x']))
         elif op == 10: lines[i] = lines[i] + rng.choice([' ', '  ', '\t'])
